@@ -217,6 +217,16 @@ def install(ex):
         return memo[key][0]
     S["hash/crc32.ChecksumIEEE"] = crc32_ieee
 
+    # crc32.Update (not used by the unchanged tree): an arbitrary 32-bit value per call - an over-approximation, so a
+    # counterexample that depends on it counts only if it reproduces natively with the real CRC
+    def crc32_update(ex, st, args, ins):
+        v = ex.A.fresh(ex.fresh_name("crc32u"), 32, False)
+        c = ex.A.range_constraint(v, 32, False)
+        if c is not True:
+            st.pc.append(c)
+        return v
+    S["hash/crc32.Update"] = crc32_update
+
     # ---------------------------------------------------------------- a few package strings/bytes predicates (first argument may
     # have symbolic content but needs a concrete length; the pattern must be concrete)
     def _sym_chars(ex, st, s):
